@@ -116,6 +116,18 @@ class DefaultDictV(dict):
     is_counter = False
 
 
+class ClassDictV(dict):
+    """Instance of a repository class that derives from dict (typing.Dict[...], OrderedDict, ...): a dict
+    that also has a class (methods, special methods) and instance attributes."""
+
+    cls: Any = None
+    term: Any = None
+
+    def __init__(self, *a: Any, **k: Any) -> None:
+        super().__init__(*a, **k)
+        self.attrs: Dict[str, Any] = {}
+
+
 class GenV:
     """A generator object of a repository generator function: its body runs lazily, one step per
     next(), as a coroutine (own thread, strictly alternating with the consumer)."""
